@@ -5,7 +5,9 @@ import Dnp3.Gen.Conversions
 Hand-written executable model of the pure conversion logic between the outstation database and
 the master's handler:
 
-* `app/measurement.rs`   `AnalogConversions::{to_i16,to_i32,to_f32}`, `Time`, `Flags`
+* `app/measurement.rs`   `AnalogConversions::{to_i16,to_i32,to_f32}` through the GENERATED rows
+  `Dnp3.Gen.Conv.analogConvs` (guards / flags / value expressions in source order; `convInt`,
+  `toF32` are interpreters of the rows), `Time`, `Flags`
 * `app/extensions.rs`    `WireFlags::get_wire_flags`
 * `app/types.rs`         `Timestamp::checked_add`, `DoubleBit::{from,to_bit_pair}`
 * `app/gen/conversion.rs` through the GENERATED table `Dnp3.Gen.Conv.{toTable,fromTable}`:
@@ -53,41 +55,91 @@ def magGt (m : Nat) (e : Int) (K : Nat) : Bool :=
 def magTrunc (m : Nat) (e : Int) : Nat :=
   if 0 ≤ e then m * 2 ^ e.toNat else m / 2 ^ (-e).toNat
 
-/-- `Flags::with_bits_set(OVER_RANGE)` -/
-def OVER_RANGE : Nat := 32
+/-- `Flags::with_bits_set(Self::OVER_RANGE)`: the mask is the GENERATED `overRangeMask`
+(`AnalogConversions::OVER_RANGE` resolved through util/bit.rs) -/
+def OVER_RANGE : Nat := overRangeMask
 def setOverRange (flags : Nat) : Nat := flags ||| OVER_RANGE
 
-/-- `AnalogConversions::to_i16 / to_i32` with `MIN = -N`, `MAX = P`:
-`if v < MIN {(flags|OVER_RANGE, MIN)} else if v > MAX {(flags|OVER_RANGE, MAX)} else {(flags, v as iN)}`.
-Both comparisons are false for NaN and Rust's `NaN as iN` is 0. -/
-def toInt (N P : Nat) (v : AVal) (flags : Nat) : Nat × Int :=
-  match v with
-  | .nan => (flags, 0)
-  | .inf true => (setOverRange flags, -(N : Int))
-  | .inf false => (setOverRange flags, (P : Int))
-  | .fin neg m e =>
-    if neg && magGt m e N then (setOverRange flags, -(N : Int))
-    else if !neg && magGt m e P then (setOverRange flags, (P : Int))
-    else (flags, if neg then -((magTrunc m e : Nat) : Int) else ((magTrunc m e : Nat) : Int))
+/-! ## `AnalogConversions::{to_i16,to_i32,to_f32}`: interpreters of the GENERATED rows `analogConvs`
 
-def toI16 (v : AVal) (flags : Nat) : Nat × Int := toInt 32768 32767 v flags
-def toI32 (v : AVal) (flags : Nat) : Nat × Int := toInt 2147483648 2147483647 v flags
+Each method is `if <guard> { return (<flags>, <value>); }`* followed by a final pair; the rows say
+which guards, in which order, with which flags / value expressions (tools/gen_conversions.py).
+What a guard and a value expression MEAN on exact values is stated here. -/
+
+/-- a guard on an exact value, for a target type with `T::MIN = -N`, `T::MAX = P` (both exactly
+representable in f64, so `T::MIN.into()` / `T::MAX.into()` lose nothing): `is_nan()` holds for NaN
+only; IEEE comparisons with NaN are false -/
+def guardHolds (N P : Nat) (g : AGuard) (v : AVal) : Bool :=
+  match g, v with
+  | .isNan, .nan => true
+  | .isNan, _ => false
+  | _, .nan => false
+  | .ltMin, .inf neg => neg
+  | .gtMax, .inf neg => !neg
+  | .ltMin, .fin neg m e => neg && magGt m e N
+  | .gtMax, .fin neg m e => !neg && magGt m e P
+
+/-- Rust's `v as iN` (`iN::MIN = -N`, `iN::MAX = P`), a saturating cast: NaN is 0, ±infinity and
+values beyond the range give MIN / MAX, everything else is truncated toward zero -/
+def castInt (N P : Nat) : AVal → Int
+  | .nan => 0
+  | .inf neg => if neg then -(N : Int) else (P : Int)
+  | .fin neg m e =>
+    let t := magTrunc m e
+    if neg then (if t > N then -(N : Int) else -((t : Nat) : Int))
+    else (if t > P then (P : Int) else ((t : Nat) : Int))
+
+/-- the value expressions of an integer conversion: `0`, `T::MIN`, `T::MAX`, `self.get_value() as T` -/
+def retInt (N P : Nat) (v : AVal) : ARet → Int
+  | .zero => 0
+  | .min => -(N : Int)
+  | .max => (P : Int)
+  | .cast => castInt N P v
+
+/-- run the early returns in source order, then the final pair -/
+def evalConv {α : Type} (guard : AGuard → Bool) (ret : ARet → α) (flags : Nat)
+    (lastOverRange : Bool) (last : ARet) : List ABranch → Nat × α
+  | [] => (if lastOverRange then setOverRange flags else flags, ret last)
+  | b :: bs =>
+    if guard b.guard then (if b.overRange then setOverRange flags else flags, ret b.ret)
+    else evalConv guard ret flags lastOverRange last bs
+
+def runConv {α : Type} (c : AConv) (guard : AGuard → Bool) (ret : ARet → α) (flags : Nat) : Nat × α :=
+  evalConv guard ret flags c.lastOverRange c.last c.branches
+
+/-- the generated row of a conversion method -/
+def convRow (c : Conv) : Option AConv := analogConvs.find? fun r => r.conv == c
+
+/-- an integer conversion method with `MIN = -N`, `MAX = P`, as the generated row says -/
+def convInt (c : Conv) (N P : Nat) (v : AVal) (flags : Nat) : Nat × Int :=
+  match convRow c with
+  | some row => runConv row (fun g => guardHolds N P g v) (retInt N P v) flags
+  | none => (flags, 0)
+
+/-- `AnalogConversions::to_i16` -/
+def toI16 (v : AVal) (flags : Nat) : Nat × Int := convInt .toI16 32768 32767 v flags
+/-- `AnalogConversions::to_i32` -/
+def toI32 (v : AVal) (flags : Nat) : Nat × Int := convInt .toI32 2147483648 2147483647 v flags
 
 /-- `f32::MAX` = (2^24 - 1) * 2^104 -/
 def F32_MAX : Nat := (2 ^ 24 - 1) * 2 ^ 104
 def F32_MAX_BITS : Nat := 0x7F7FFFFF
 def F32_MIN_BITS : Nat := 0xFF7FFFFF
 
-/-- `AnalogConversions::to_f32`; `r32` = the bit pattern of `v as f32` (supplied, trusted) -/
+/-- the value expressions of the float conversion as binary32 bit patterns: `0.0`, `f32::MIN`,
+`f32::MAX`, `self.get_value() as f32` = the supplied rounding `r32` -/
+def retF32 (r32 : Nat) : ARet → Nat
+  | .zero => 0
+  | .min => F32_MIN_BITS
+  | .max => F32_MAX_BITS
+  | .cast => r32
+
+/-- `AnalogConversions::to_f32` as the generated row says; `r32` = the bit pattern of `v as f32`
+(supplied, trusted).  `f32::MIN = -f32::MAX`. -/
 def toF32 (v : AVal) (flags : Nat) (r32 : Nat) : Nat × Nat :=
-  match v with
-  | .nan => (flags, r32)
-  | .inf true => (setOverRange flags, F32_MIN_BITS)
-  | .inf false => (setOverRange flags, F32_MAX_BITS)
-  | .fin neg m e =>
-    if neg && magGt m e F32_MAX then (setOverRange flags, F32_MIN_BITS)
-    else if !neg && magGt m e F32_MAX then (setOverRange flags, F32_MAX_BITS)
-    else (flags, r32)
+  match convRow .toF32 with
+  | some row => runConv row (fun g => guardHolds F32_MAX F32_MAX g v) (retF32 r32) flags
+  | none => (flags, r32)
 
 /-- `sig / 2^sh` rounded to nearest, ties to even -/
 def roundNearestEven (sig sh : Nat) : Nat :=
